@@ -366,8 +366,8 @@ class Gen(object):
             acts.append(("in_publish", {"subscriber": 7, "wire": 3, "closing": 2}.get(fam, 1.5)))
             if sess.tx_recd:
                 acts.append(("in_pubrel", 5))
-            if sess.tx_unrec or sess.tx_q1:
-                acts.append(("in_repeat", 1.5 if fam == "subscriber" else 0.4))
+            if sess.tx_unrec or sess.tx_q1 or sess.tx_recd:
+                acts.append(("in_repeat", 2.5 if fam == "subscriber" else 0.5))
             if sess.tx_rel or sess.tx_done:
                 acts.append(("in_pubrel_again", 1.5 if fam == "subscriber" else 0.3))
             acts.append(("in_pubrel_unknown", 0.6 if fam in ("subscriber", "hostile") else 0.1))
@@ -425,7 +425,8 @@ class Gen(object):
         if k == "in_pubrel":
             return self.cut_for(w, addr, {"op": "brk.pubrel", "addr": addr, "ref": rng.randint(0, 3), "dup": rng.random() < 0.2 and cfg["version"] == 3})
         if k == "in_repeat":
-            return {"op": "brk.publish", "addr": addr, "mode": "repeat", "q": 2 if sess.tx_unrec else 1, "ref": rng.randint(0, 3)}
+            return {"op": "brk.publish", "addr": addr, "mode": "repeat", "q": 2 if (sess.tx_unrec or sess.tx_recd) else 1,
+                    "ref": rng.randint(0, 3)}
         if k == "in_pubrel_again":
             return {"op": "brk.pubrel", "addr": addr, "mode": "again", "ref": rng.randint(0, 3)}
         if k == "in_pubrel_unknown":
